@@ -443,16 +443,45 @@ fn pushm(v: &mut Vec<Mutation>, name: String, alter: Alter) {
     v.push(Mutation { name, alter, noop: false });
 }
 
+pub const SCALAR_BUMPS: [&str; 8] = ["+1", "negated", "zero", "random", "one bit flipped", "+2^128", "one byte cleared", "two bytes exchanged"];
+
 fn bump_scalar(b: &[u8; 32], how: usize, rng: &mut impl RngCore) -> [u8; 32] {
     let s = Option::<Scalar>::from(Scalar::from_canonical_bytes(*b)).unwrap_or(Scalar::ZERO);
-    let r = match how % 4 {
+    let r = match how % 8 {
         0 => s + Scalar::ONE,
         1 => -s,
         2 => Scalar::ZERO,
-        _ => rand_scalar(rng),
+        3 => rand_scalar(rng),
+        4 => {
+            // a neighbour differing in exactly one bit of the encoding (reduced if that leaves the canonical range)
+            let mut x = *b;
+            let bit = (rng.next_u32() % 252) as usize;
+            x[bit / 8] ^= 1 << (bit % 8);
+            Scalar::from_bytes_mod_order(x)
+        },
+        5 => s + Scalar::from(1u128 << 127) + Scalar::from(1u128 << 127),
+        6 => {
+            let mut x = *b;
+            let start = (rng.next_u32() % 32) as usize;
+            if let Some(i) = (0..32).map(|k| (start + k) % 32).find(|i| x[*i] != 0) {
+                x[i] = 0;
+            }
+            Scalar::from_bytes_mod_order(x)
+        },
+        _ => {
+            let mut x = *b;
+            let i = (rng.next_u32() % 31) as usize;
+            x.swap(i, i + 1);
+            x[31] &= 0x0F;
+            Scalar::from_bytes_mod_order(x)
+        },
     };
     let r = if r == s { s + Scalar::from(2u8) } else { r };
     r.to_bytes()
+}
+
+pub fn dec(b: &[u8; 32]) -> Option<P> {
+    Comp::from_fixed_bytes(*b).decompress()
 }
 
 /// Every single-component alteration of the triple (each proof scalar and point position, round count, degree
@@ -465,7 +494,7 @@ pub fn mutations(case: &Case, parts: &Parts, other: Option<&Parts>, density: usi
     // --- scalars
     let n_sc = 2 + parts.d1.len();
     for pos in 0..n_sc {
-        for how in 0..density.min(4) {
+        for how in 0..(2 * density).min(8) {
             let how = how + rot + pos;
             let mut p = parts.clone();
             let (name, slot): (String, &mut [u8; 32]) = match pos {
@@ -474,7 +503,7 @@ pub fn mutations(case: &Case, parts: &Parts, other: Option<&Parts>, density: usi
                 k => (format!("d1[{}]", k - 2), &mut p.d1[k - 2]),
             };
             *slot = bump_scalar(slot, how, rng);
-            pushm(&mut v, format!("proof.{name} -> {}", ["+1", "negated", "zero", "random"][how % 4]), Alter::Proof(p));
+            pushm(&mut v, format!("proof.{name} -> {}", SCALAR_BUMPS[how % 8]), Alter::Proof(p));
         }
     }
     // --- the same scalar in a non-canonical encoding (s + l as a 256-bit integer): another byte string, same value
@@ -502,8 +531,8 @@ pub fn mutations(case: &Case, parts: &Parts, other: Option<&Parts>, density: usi
     // --- points: A, A1, B, each L_j, R_j
     let n_pt = 3 + 2 * parts.lr.len();
     for pos in 0..n_pt {
-        let kinds = 5usize;
-        for how in 0..density.min(kinds) {
+        let kinds = 7usize;
+        for how in 0..(density + density / 2).min(kinds) {
             let how = (how + rot + pos) % kinds;
             let mut p = parts.clone();
             let cur: [u8; 32];
@@ -557,6 +586,21 @@ pub fn mutations(case: &Case, parts: &Parts, other: Option<&Parts>, density: usi
                         },
                         None => enc(&<P as Gx>::random_point(rng)),
                     },
+                    5 => match dec(slot) {
+                        // the inverse of the same point
+                        Some(pt) => enc(&RefGroup::times(&pt, &(-Scalar::ONE))),
+                        None => [0u8; 32],
+                    },
+                    6 => {
+                        // a generator of the statement
+                        let prm = case.params();
+                        match (rot + pos) % 4 {
+                            0 => enc(prm.h_base()),
+                            1 => enc(&prm.g_bases()[(rot + pos) % cfg.ext]),
+                            2 => enc(prm.gi_base_iter().next().expect("generator")),
+                            _ => enc(prm.hi_base_iter().nth((rot + pos) % cfg.n).expect("generator")),
+                        }
+                    },
                     _ => {
                         // another element of the same proof
                         match pos {
@@ -579,7 +623,7 @@ pub fn mutations(case: &Case, parts: &Parts, other: Option<&Parts>, density: usi
             if p != *parts {
                 let _ = cur;
                 pushm(&mut v, 
-                    format!("proof.{name} -> {}", ["random point", "identity", "undecodable", "other proof's", "sibling element"][how]),
+                    format!("proof.{name} -> {}", ["random point", "identity", "undecodable", "other proof's", "sibling element", "negated", "a generator"][how]),
                     Alter::Proof(p),
                 );
             }
@@ -666,16 +710,22 @@ pub fn mutations(case: &Case, parts: &Parts, other: Option<&Parts>, density: usi
     // --- commitments
     let prm = case.params();
     for j in 0..cfg.m {
-        let kinds = 3usize;
-        for how in 0..density.min(kinds) {
+        let kinds = 6usize;
+        for how in 0..(density + density / 2).min(kinds) {
             let how = (how + rot + j) % kinds;
             let mut c = case.commitments.clone();
             c[j] = match how {
                 0 => &c[j] + prm.h_base(),
                 1 => &c[j] + &prm.g_bases()[(rot + j) % cfg.ext],
-                _ => <P as Gx>::random_point(rng),
+                2 => <P as Gx>::random_point(rng),
+                3 => RefGroup::times(&c[j], &(-Scalar::ONE)),
+                4 => P::identity(),
+                _ => RefGroup::times(&c[j], &Scalar::from(2u8)),
             };
-            pushm(&mut v, format!("commitment[{j}] -> {}", ["+H", "+G_k", "random point"][how]), Alter::Commitments(c));
+            if c[j] == case.commitments[j] {
+                continue;
+            }
+            pushm(&mut v, format!("commitment[{j}] -> {}", ["+H", "+G_k", "random point", "negated", "identity", "doubled"][how]), Alter::Commitments(c));
         }
     }
     if cfg.m >= 2 {
